@@ -158,12 +158,21 @@ fn kernighan_lin_2_impl<T>(
         }
 
         // lookup for best cutsize
-        let (best_pos, best_cut) = cut_saves
+        let best = cut_saves
             .iter()
             .cloned()
             .enumerate()
-            .min_by(|(_, a), (_, b)| a.partial_cmp(b).unwrap())
-            .unwrap();
+            .min_by(|(_, a), (_, b)| a.partial_cmp(b).unwrap());
+        let (best_pos, best_cut) = match best {
+            Some((pos, cut)) if cut < cut_size => (pos, cut),
+            _ => {
+                // No swap improves the cut: undo all of them.
+                for ((idx_1, _), (idx_2, _)) in &saves {
+                    initial_partition.swap(*idx_1, *idx_2);
+                }
+                break;
+            }
+        };
 
         // rewind swaps
         tracing::info!(
